@@ -121,7 +121,7 @@ def build_binary(repo, log):
     if p.returncode != 0:
         log.append(p.stderr[-2000:])
         return None
-    return os.path.join(repo, "target", "debug", "scryer-prolog")
+    return os.path.join(os.environ.get("CARGO_TARGET_DIR") or os.path.join(repo, "target"), "debug", "scryer-prolog")
 
 
 PL_HEAD = """:- use_module(library(format)).
